@@ -263,4 +263,60 @@ Proof.
       inversion Q1; subst r. unfold lift. cbn [dict_set dict_get]. rewrite (key_eqb_refl key k Hk). split; [reflexivity|exact Q2].
     + destruct Q as [Q1 _]. cbn [read_store_lines] in Q1. rewrite Er in Q1. cbn [bind] in Q1. rewrite R in Q1. discriminate.
 Qed.
+
+(* ---- cas ---- *)
+Theorem cas_e2e sid s key value cas expire n flags cb bytes :
+  check_cas c cas = Ok cb ->
+  let nr := py_truthy n in
+  store_bytes c L_cas [(key, value)] expire nr flags (Some cb) = Ok bytes -> in_i64 expire -> in_u32 flags ->
+  exists k f e db, store_intent c VCas [(key, value)] expire nr flags cb = Ok [CStore VCas k f e db cb nr] /\
+  let s' := fst (exec s (CStore VCas k f e db cb nr)) in let o := snd (exec s (CStore VCas k f e db cb nr)) in
+  hoare (St sid s []) (run_op sstate serve c (OpCas key value cas expire n flags))
+        (fun r w => r = (if nr then DBool true else contract_store o) /\ St sid s' [] w) (fun _ _ => False).
+Proof.
+  intros Hc. cbn zeta. set (nr := py_truthy n). intros Hb He Hf.
+  change L_cas with (sverb_name VCas) in Hb. change (Some cb) with (cas_opt VCas cb) in Hb.
+  pose proof (check_cas_digits c cas cb Hc) as Hdig.
+  destruct (store_wellformed c VCas [(key, value)] expire nr flags cb bytes Hb He Hf (fun _ => Hdig)) as (cmds & Hi & Hby & _).
+  assert (Hone : exists k f e db, cmds = [CStore VCas k f e db cb nr] /\ check_key c (c_prefix c) key = Ok k).
+  { unfold store_intent in Hi. destruct (int_value expire) as [e|]; [|discriminate]. cbn [map_exc] in Hi. unfold store_item in Hi. cbn [fst snd] in Hi.
+    destruct (check_key c (c_prefix c) key) as [k|x]; [|discriminate]. cbn [bind] in Hi.
+    destruct (serde_serialize c value) as [[data dfl]|x]; [|discriminate]. cbn [bind fst snd] in Hi.
+    destruct (int_value match flags with DNone => DInt dfl | _ => flags end) as [f|]; [|discriminate].
+    destruct (data_bytes c data) as [db|x]; [|discriminate]. cbn [bind] in Hi. inversion Hi.
+    exists k, f, e, db. auto. }
+  destruct Hone as (k & f & e & db & -> & Hk). exists k, f, e, db. split; [exact Hi|].
+  assert (Hwf : wf_cmd (CStore VCas k f e db cb nr) = true).
+  { pose proof (store_intent_wf c VCas [(key, value)] expire nr flags cb _ Hi He Hf (fun _ => Hdig)) as W. cbn [forallb] in W.
+    rewrite andb_true_r in W. exact W. }
+  cbn [render_all] in Hby. rewrite app_nil_r in Hby.
+  pose proof (serve_one s (CStore VCas k f e db cb nr) Hwf) as Hsv.
+  pose proof (exec_not_values s (CStore VCas k f e db cb nr) eq_refl) as Hnv.
+  pose proof (store_reading s VCas k f e db cb nr) as R. cbn zeta in R.
+  destruct (exec s (CStore VCas k f e db cb nr)) as [s' o]. cbn [fst snd is_noreply] in *.
+  cbn [run_op]. fold nr.
+  intros w Hw. unfold mbind at 1. unfold lift at 1. rewrite Hc. unfold mbind. rewrite (store_cmd_bytes sstate serve c).
+  change L_cas with (sverb_name VCas). change (Some cb) with (cas_opt VCas cb). rewrite Hb.
+  unfold read_store in R. destruct (raise_errors (reply_line o)) as [u|x] eqn:Er; [|discriminate]. cbn [bind] in R.
+  destruct nr.
+  - pose proof (store_io_noreply_quiet sstate serve c sid s s' (sverb_name VCas) [(key, value)] bytes) as Q.
+    rewrite Hby in Q. specialize (Q Hsv w Hw). rewrite <- Hby in Q.
+    destruct (store_io sstate serve c (sverb_name VCas) [(key, value)] true bytes w) as [[r|x] w'] eqn:Eio; [|destruct Q].
+    unfold store_io, mbind in Eio.
+    assert (Hr : r = [DTuple [key; DBool true]]).
+    { revert Eio. unfold ensure_connected, mbind, get_sock. destruct Hw as (S1 & _). rewrite S1. cbn [ret].
+      unfold exchange, mbind, reset_buf, mtry. cbn [fst snd].
+      match goal with |- context [send serve bytes ?w0] => destruct (send serve bytes w0) as [[u2|x2] w2] end.
+      - cbn. intros X. inversion X. reflexivity.
+      - destruct (exn_isa x2 (h_store c)); [|discriminate]. destruct (client_close sstate w2) as [[u3|x3] w3]; discriminate. }
+    subst r. unfold lift. cbn [dict_get]. rewrite (key_eqb_refl key k Hk). split; [reflexivity|exact Q].
+  - pose proof (store_io_quiet sstate serve c sid s s' (sverb_name VCas) [(key, value)] bytes [reply_line o]) as Q.
+    assert (Hp : serve s bytes = (s', lines_bytes [reply_line o])).
+    { rewrite Hby, Hsv, (reply_single _ o Hnv). unfold lines_bytes. cbn. rewrite app_nil_r. reflexivity. }
+    specialize (Q Hp eq_refl (Forall_cons _ (reply_line_ok o Hnv) (Forall_nil _)) catches_store w Hw).
+    destruct (store_io sstate serve c (sverb_name VCas) [(key, value)] false bytes w) as [[r|x] w'].
+    + destruct Q as [Q1 Q2]. cbn [read_store_lines] in Q1. rewrite Er in Q1. cbn [bind] in Q1. rewrite R in Q1. cbn [bind fst] in Q1.
+      inversion Q1; subst r. unfold lift. cbn [dict_set dict_get]. rewrite (key_eqb_refl key k Hk). split; [reflexivity|exact Q2].
+    + destruct Q as [Q1 _]. cbn [read_store_lines] in Q1. rewrite Er in Q1. cbn [bind] in Q1. rewrite R in Q1. discriminate.
+Qed.
 End E2E.
